@@ -327,6 +327,28 @@ type jobReport struct {
 	Validated int     `json:"traces_validated"`
 }
 
+type pendingNative struct {
+	key     string
+	j       JobDef
+	cases   []replayCase
+	process func(res []replayResult)
+}
+
+// nativeKey identifies the set of files a native run is compiled from.
+func nativeKey(j JobDef) string {
+	k := j.Pkg + "|" + strings.Join(j.Harness, ",") + "|" + strings.Join(j.NativeOnly, ",")
+	var gn []string
+	for n, src := range j.GenFiles {
+		gn = append(gn, fmt.Sprintf("%s:%x", n, hashBytes([]byte(src))))
+	}
+	sort.Strings(gn)
+	k += "|" + strings.Join(gn, ",")
+	for _, s := range j.Substs {
+		k += "|" + s.File + ":" + s.Old + "=>" + s.New
+	}
+	return k
+}
+
 type checkOutcome struct {
 	violations   []string // VIOLATION lines
 	known        []string // KNOWN-FINDING lines
@@ -391,6 +413,7 @@ func cmdCheck(args []string) int {
 	knownSeen := map[string]bool{}
 	nviol := 0
 	jobs := c.Jobs(tier)
+	var pend []pendingNative
 	os.MkdirAll(filepath.Join(verifRoot, "replay"), 0o755)
 	for _, j := range jobs {
 		l, pkg, err := loadJob(j)
@@ -407,8 +430,15 @@ func cmdCheck(args []string) int {
 		if cfg.MaxSteps == 0 {
 			cfg.MaxSteps = 5_000_000
 		}
+		// budgets: exceeding one makes the run inconclusive, never a pass
+		cfg.Deadline = time.Now().Add(6 * time.Minute)
+		if cfg.MaxPaths == 0 {
+			cfg.MaxPaths = 4_000_000
+		}
 		if tier == "thorough" {
 			cfg.TimeoutMs = 120000
+			cfg.Deadline = time.Now().Add(45 * time.Minute)
+			cfg.MaxPaths = 0
 		}
 		if lg := os.Getenv("VERIF_SMTLOG"); lg != "" {
 			cfg.SMTLog = lg
@@ -472,11 +502,10 @@ func cmdCheck(args []string) int {
 			}
 		}
 		if len(cases) > 0 && !j.NoNative {
-			res, raw, err := nativeRun(j, cases)
-			if err != nil {
-				out.inconclusive = append(out.inconclusive, j.Name+": native replay failed: "+err.Error())
-				_ = raw
-			} else {
+			// native runs are batched per harness file set after all jobs
+			j, cases, caseKind, cfg, l, fn, pkg, repIdx := j, cases, caseKind, cfg, l, fn, pkg, len(reports)
+			pend = append(pend, pendingNative{key: nativeKey(j), j: j, cases: cases, process: func(res []replayResult) {
+				rep := &reports[repIdx]
 				for i, r := range res {
 					kind := caseKind[i]
 					switch {
@@ -529,7 +558,7 @@ func cmdCheck(args []string) int {
 						}
 					}
 				}
-			}
+			}})
 		} else if j.NoNative {
 			for _, v := range st.Viol {
 				_ = v
@@ -541,6 +570,32 @@ func cmdCheck(args []string) int {
 		// unlisted known-ids that were hit do not matter; listed ones not hit are fine
 		reports = append(reports, rep)
 		total.merge(st)
+	}
+	// batched native replay / translator validation
+	var order []string
+	groups := map[string][]pendingNative{}
+	for _, pn := range pend {
+		if _, ok := groups[pn.key]; !ok {
+			order = append(order, pn.key)
+		}
+		groups[pn.key] = append(groups[pn.key], pn)
+	}
+	for _, k := range order {
+		g := groups[k]
+		var all []replayCase
+		for _, pn := range g {
+			all = append(all, pn.cases...)
+		}
+		res, _, err := nativeRun(g[0].j, all)
+		if err != nil {
+			out.inconclusive = append(out.inconclusive, g[0].j.Name+": native replay failed: "+err.Error())
+			continue
+		}
+		off := 0
+		for _, pn := range g {
+			pn.process(res[off : off+len(pn.cases)])
+			off += len(pn.cases)
+		}
 	}
 	// evidence
 	ev := map[string]interface{}{
